@@ -823,8 +823,8 @@ func (c *Ctx) fileStratum(prop string, nRandom int) {
 		fileLine("bytes", content, p)
 	}
 	c.M.Case("file-documents")
-	// one line longer than 4 KiB, 64 KiB (bufio's default buffer and token limit) and, in the thorough tier, 1 MiB
-	for _, size := range []int{5000, 70000, c.N(70001, 1100000)} {
+	// one line longer than 4 KiB, 64 KiB (bufio's default buffer and token limit) and, in the thorough tier, 200 kB (the model's list accumulator is quadratic)
+	for _, size := range []int{5000, 70000, c.N(70001, 200000)} {
 		var sb strings.Builder
 		sb.WriteString(`{"k":[`)
 		for i := 0; sb.Len() < size; i++ {
@@ -1058,6 +1058,7 @@ func (c *Ctx) equalsLine(a, b *Tree) (string, string) {
 func runC07(c *Ctx) {
 	r := c.R
 	c.St.Rule = "pairs (tree, copy with exactly one difference at a random depth, or the same tree with permuted field order), compared in both argument orders; non-trivial = depth >= 1 and size >= 3; distinct by the pair"
+	c.nilArguments()
 	opts := &TreeOpts{MaxDepth: 5, MaxWidth: 6}
 	for i := 0; i < c.N(4000, 80000); i++ {
 		a := r.Container(opts, "[{"[r.Intn(2)])
